@@ -103,6 +103,38 @@ func (kf *kindFlow) refine(cond ssa.Value, cur KindSet) (t, f KindSet) {
 			f, t = kf.refine(x.X, cur)
 		}
 	case *ssa.BinOp:
+		if x.Op == token.LSS || x.Op == token.LEQ || x.Op == token.GTR || x.Op == token.GEQ {
+			// a range of kinds: `k >= reflect.Int && k <= reflect.Uint64`
+			isKind := func(v ssa.Value) bool {
+				if kf.kindVal != nil && kf.kindVal(v) {
+					return true
+				}
+				cc, ok := v.(*ssa.Call)
+				if !ok {
+					return false
+				}
+				return (core.CalleeKey(&cc.Call) == "reflect.Value.Kind" && len(cc.Call.Args) > 0 && kf.subject(cc.Call.Args[0])) || (cc.Call.IsInvoke() && cc.Call.Method.Name() == "Kind" && kf.subject(cc.Call.Value))
+			}
+			op := x.Op
+			var kc *ssa.Const
+			if kk, ok := x.Y.(*ssa.Const); ok && isKind(x.X) {
+				kc = kk
+			} else if kk, ok := x.X.(*ssa.Const); ok && isKind(x.Y) {
+				kc = kk
+				op = map[token.Token]token.Token{token.LSS: token.GTR, token.LEQ: token.GEQ, token.GTR: token.LSS, token.GEQ: token.LEQ}[op]
+			}
+			if kc == nil || kc.Value == nil || kc.Value.Kind() != constant.Int {
+				return
+			}
+			kv, _ := constant.Int64Val(kc.Value)
+			var tset KindSet
+			for k := 0; k < nKinds; k++ {
+				if constant.Compare(constant.MakeInt64(int64(k)), op, constant.MakeInt64(kv)) {
+					tset |= Kinds(k)
+				}
+			}
+			return cur & tset, cur &^ tset
+		}
 		if x.Op != token.EQL && x.Op != token.NEQ {
 			return
 		}
